@@ -64,6 +64,13 @@ def matrix(c, seed):
         A = G.copy()
         for t in range(r, n):
             A[t] = A[(t - r) % r]
+    elif kind in ('illc6', 'illc8'):       # genuinely ill-conditioned (not a column scaling): prescribed singular values
+        p = 6 if kind == 'illc6' else 8
+        Q1, _ = np.linalg.qr(G)
+        H = space.core('gen', 1, r, r, 4, seed, tag=9)[0] + 2 * np.eye(r)
+        Q2, _ = np.linalg.qr(H)
+        sv = 10.0 ** (-p * np.arange(r) / max(1, r - 1))
+        A = (Q1 * sv) @ Q2.T
     elif kind == 'perm':          # rows permuted so that the best rows come last
         A = G[::-1].copy()
     else:
@@ -98,8 +105,11 @@ def _basic(res, case, A, I, B, tags, what):
         return True, None
     nrm = max(np.linalg.norm(A), 1e-300)
     resid = np.linalg.norm(A - B @ sub)
-    res.check(resid <= 1e-12 * (1 + cond) * nrm * (1 + B.shape[0]), what + '.A=B*A[I]', case,
-              lambda: 'residual %.3e, cond %.2e, |A| %.2e' % (resid, cond, nrm), tags)
+    # B comes from triangular solves and rank-one updates, all backward stable: the residual is small relative to
+    # |B| |A[I]| whatever the conditioning (an explicit inverse would give cond * eps here)
+    bound = 256 * 2.0 ** -53 * max(len(I), 4) * np.sqrt(B.shape[0]) * float(np.linalg.norm(B)) * float(np.linalg.norm(sub))
+    res.check(resid <= bound + 1e-300, what + '.A=B*A[I]', case,
+              lambda: 'residual %.3e > backward-stable bound %.3e (cond %.2e, |A| %.2e)' % (resid, bound, cond, nrm), tags)
     dev = np.abs(B[I] - np.eye(len(I))).max()
     tolI = 0.0 if what == 'rect' else 1e-12 * (1 + cond)
     res.check(dev <= tolI, what + '.B[I]=eye', case, lambda: 'max|B[I]-eye| = %.3e' % dev, tags)
@@ -121,7 +131,7 @@ def check_maxvol(c):
         prev = None
         fix_k = None
         swaps = 0
-        for k in range(0, KMAX):
+        for k in (range(0, KMAX) if not c.get('huge') else [0, 1, 2, 3, 10, 40]):
             case = dict(c, e=e, k=k)
             res.ev()
             with warnings.catch_warnings():
@@ -146,8 +156,8 @@ def check_maxvol(c):
             if fix_k is not None:
                 break
             prev = key
-        if fix_k is None:
-            res.skip('no fixpoint within KMAX iterations')
+        if fix_k is None or c.get('huge'):
+            res.skip('no fixpoint within the explored iteration limits' if not c.get('huge') else 'huge matrix: invariants on the explored states only')
             continue
         res.outcome('fix@%d' % fix_k)
         if swaps:
@@ -209,7 +219,9 @@ def check_rect(c):
         res.skip('rank-deficient catalogue matrix')
         return res
     top = n - r + 1
-    if c.get('big'):
+    if c.get('huge'):
+        drs = [(0, None), (1, 2), (0, 0), (2, 1)]
+    elif c.get('big'):
         drs = [(0, None), (0, 0), (1, 3), (3, 3), (0, 7), (top - 1, top - 1), (top, top), (-1, 2), (2, 1)]
     else:
         drs = [(a, b) for a in range(-1, top + 1) for b in list(range(0, top + 1)) + [None]]
@@ -255,7 +267,7 @@ def check_rect(c):
             if cnt > r:
                 res.nt(case)
     # the dispatcher used by cross
-    for (dmin, dmax) in [(0, 0), (0, 1), (1, 1), (1, 2), (2, 2), (0, 5), (5, 5)]:
+    for (dmin, dmax) in ([(0, 0), (0, 1), (1, 1), (1, 2), (2, 2), (0, 5), (5, 5)] if not c.get('huge') else [(1, 2)]):
         for AA, nm in ((A, 'tall'), (A[:r], 'square'), (A[:max(1, r - 1)], 'wide')):
             case = dict(c, disp=nm, dr_min=dmin, dr_max=dmax)
             res.ev()
@@ -281,7 +293,7 @@ def check_rect(c):
 
 CHECKERS = {'maxvol': check_maxvol, 'rect': check_rect}
 
-KINDS = ['gen', 'int', 'grad4', 'grad8', 'duprow', 'zerorow', 'restzero', 'restdup', 'perm']
+KINDS = ['gen', 'int', 'grad4', 'grad8', 'illc6', 'illc8', 'duprow', 'zerorow', 'restzero', 'restdup', 'perm']
 
 
 def _cases(tier, seed):
@@ -296,9 +308,9 @@ def _cases(tier, seed):
                 for tag in (tagsv if kind not in ('int',) else [0]):
                     out.append(dict(r=r, n=n, kind=kind, es=es, seed=seed, tag=tag,
                                     brute=(tier != 'quick')))
-    for (n, r) in ((200, 5), (64, 8), (33, 2), (1000, 3)):
-        for kind in ('gen', 'grad8', 'duprow', 'zerorow'):
-            out.append(dict(r=r, n=n, kind=kind, es=[1.01, 1.5], seed=seed, tag=0, brute=False, big=True))
+    for (n, r) in ((200, 5), (64, 8), (33, 2), (1000, 3), (3000, 100), (1500, 200), (6000, 50)):
+        for kind in (('gen', 'grad8', 'illc8', 'duprow', 'zerorow') if n * r < 10 ** 5 else ('gen',)):
+            out.append(dict(r=r, n=n, kind=kind, es=[1.01, 1.5] if n * r < 10 ** 5 else [1.05], seed=seed, tag=0, brute=False, big=True, huge=(n * r >= 10 ** 5)))
     return out
 
 
